@@ -270,6 +270,7 @@ INVARIANT AtMostOnce
 INVARIANT GotGenuine
 INVARIANT LockFreeAtRest
 INVARIANT LockHolder
+INVARIANT NoStuck
 """ + ("ACTION_CONSTRAINT EmitEdge\n" if edges else "")
 
 
